@@ -57,10 +57,17 @@ def judge(ctx, obs):
     return ctx.validate("Trace_SeqViewsLog", "Trace_SeqViewsLog.cfg", slim, group="grp", per_shard_min=2000)
 
 
-def selftest(ctx, obs):
+def selftest(ctx, obs, ver):
     """The binding bites: a log with one corrupted field (a freshness bit after a mutator; the content identity of one
-    view while both are fresh) must be rejected at exactly that line."""
+    view while both are fresh) must be rejected at exactly that line.  Only lines the validator ACCEPTED are used as the
+    base: on a tree that deviates from the protocol the deviating lines are the check's findings (reported as
+    violations by the caller), not a defect of the machinery."""
     import copy
+    good = {v["id"] for v in ver if not v["fails"] and not v.get("illegal")}
+    if len(good) < len(ver) // 2:
+        ctx.notes["testlog_selftest"] = "skipped: most logged calls are rejected on this tree"
+        return
+    obs = [o for o in obs if o["id"] in good]
     mut = next((o for o in obs if o["op"] in ("normalise", "pad", "add_relative_message", "quantise_note_lengths") and o["raised"] == ""), None)
     both = next((o for o in obs if o["b1"] == [True, True] and o["ca"] >= 1 and o["cr"] >= 1), None)
     if mut is None or both is None:
@@ -141,7 +148,7 @@ def run(ctx, replay_obs=None):
         o["id"] = 10_000_000 + i
     ver = judge(ctx, obs)
     if replay_obs is None:
-        selftest(ctx, obs)
+        selftest(ctx, obs, ver)
     judged = sum(1 for v in ver if not v.get("illegal"))
     content = sum(1 for v in ver if v.get("judgedContent"))
     if replay_obs is None and (judged < len(ver) // 2 or content == 0):
